@@ -40,7 +40,7 @@ pub fn prop() -> Prop {
          schema has a deprecation, a default value, or an interface implemented by >= 2 types; distinct by schema \
          text and mode.",
     )
-    .random("schemas", check, |t| if t == Tier::Quick { 40_000 } else { 400_000 }, |t| if t == Tier::Quick { 600 } else { 1000 })
+    .random("schemas", check, |t| if t == Tier::Quick { 60_000 } else { 500_000 }, |t| if t == Tier::Quick { 600 } else { 1000 })
     .text(check_text)
     .assumptions(&[
         "graphql-js is not installed: the expectation is a reference written from the October 2021 spec and graphql-js v16 behaviour; where graphql-js's exact output is not certain the comparison is weakened (listed in the module documentation), never guessed",
@@ -184,6 +184,13 @@ fn run_one(s: &RefSchema, apollo_schema: &apollo_compiler::validation::Valid<apo
         }
         ExecObs::Response(resp) => {
             for d in ri::compare(s, &expected, &resp) {
+                if d.kind.starts_with("harness|") {
+                    // the reference cannot interpret its own expectation: never an alarm
+                    if ctx.strict {
+                        eprintln!("{}: {}", d.kind, d.detail);
+                    }
+                    return Err("reference cannot coerce a generated default value");
+                }
                 let sig = format!("C24|{}", d.kind);
                 if !fails.iter().any(|(x, _)| *x == sig) {
                     fails.push((sig, format!("{}: {}", mode, d.detail)));
